@@ -1590,7 +1590,7 @@ func genL3(r *vlib.R, emit func(string)) int {
 		al := vlib.Pick(r, []string{"lalias.zone.test.", "lalias.zone.test.", "lalias.zone.test.", "xalias.zone.test."})
 		e(fmt.Sprintf("l3 q %s A %s", al, vlib.Pick(r, []string{"d", "d", "-", "dw", "n"})))
 		k := vlib.Pick(r, []tk{{"flipsig", "-", "all"}, {"flipsig", "-", "data"}, {"expired", "-", "all"}, {"dropsigs", "-", "all"}, {"flipdata", "-", "data"},
-			{"rcode", "5", "data"}, {"rcode", "2", "data"}, {"signer", "evilzone.test.", "data"}, {"sigfield", "alg16", "data"}, {"resign-expired", "-", "data"}})
+			{"rcode", "5", "data"}, {"signer", "evilzone.test.", "data"}, {"sigfield", "alg16", "data"}, {"resign-expired", "-", "data"}})
 		e(fmt.Sprintf("l3 tamper other %s %s %s", k.kind, k.arg, k.scope))
 		e(fmt.Sprintf("l3 advance %d", vlib.Pick(r, []int{25, 40, 120, 400})))
 		for i := 0; i < 2+r.Intn(3); i++ {
